@@ -119,5 +119,28 @@ FRAMES = [
 ]
 
 
+# which contract a callee summary stands for (checked by pyvc.frame.summary_consistency: what the summary lets the callee mutate must be
+# allowed by that contract's own `modifies`); summaries not listed here are assumptions
+SUMMARISES = {
+    ("dict.from_operator", "add_to_dict"): "dict.add_to_dict", ("dict.from_node", "add_to_dict"): "dict.add_to_dict",
+    ("dict.from_circuit", "add_to_dict"): "dict.add_to_dict", ("dict.from_node", "from_operator"): "dict.from_operator",
+    ("dict.from_edge", "from_node"): "dict.from_node", ("dict.from_circuit", "from_node"): "dict.from_node",
+    ("dict.from_circuit", "from_edge"): "dict.from_edge", ("dict.from_circuit", "from_circuit"): "dict.from_circuit",
+    ("CircuitTemplate.collect_edges", "*.collect_edges"): "CircuitTemplate.collect_edges",
+    ("CircuitTemplate.get_edges", "self.collect_edges"): "CircuitTemplate.collect_edges", ("CircuitTemplate.get_edges", "*.collect_edges"): "CircuitTemplate.collect_edges",
+    ("CircuitTemplate.get_edge", "self.collect_edges"): "CircuitTemplate.collect_edges", ("CircuitTemplate.get_edge", "self.get_edges"): "CircuitTemplate.get_edges",
+    ("CircuitTemplate.get_node_template", "*.get_node_template"): "CircuitTemplate.get_node_template",
+    ("CircuitTemplate.update_template[in_place=False]", "update_dict"): "update_dict", ("CircuitTemplate.update_template[in_place=False]", "update_edges"): "update_edges",
+    ("OperatorTemplate.update_template", "_update_variables"): "_update_variables",
+    ("OperatorGraphTemplate.apply", "*.apply"): "OperatorTemplate.apply",
+    ("CircuitTemplate.update_var", "self.get_node_template"): "CircuitTemplate.get_node_template",
+    ("CircuitTemplate.update_var", "*.update_var"): "OperatorGraphTemplate.update_var", ("CircuitTemplate.update_var", "self.get_edge"): "CircuitTemplate.get_edge",
+    ("adapt_circuit", "*.get_edge"): "CircuitTemplate.get_edge", ("adapt_circuit", "*.update_var"): "CircuitTemplate.update_var",
+    ("utility.clear", "model.clear"): "CircuitTemplate.clear", ("utility.clear", "clear_frontend_caches"): "clear_frontend_caches",
+    ("CircuitTemplate.clear", "clear_ir_caches"): "clear_ir_caches", ("clear_frontend_caches", "clear_ir_caches"): "clear_ir_caches",
+    ("clear_frontend_caches", "template.clear_cache"): "template.clear_cache",
+}
+
+
 def for_prop(prop):
     return [c for c in FRAMES if prop in c["props"]]
